@@ -49,8 +49,8 @@ class SizeRule(sym.Rule):
         pa, sa = self.cells(obj, eng)
         if pa is None or sa is None:
             return None, None, None
-        d = st.mem.get(pa, atom(('init', pa)))
-        s = st.mem.get(sa, atom(('init', sa)))
+        d = eng.load(st, pa)
+        s = eng.load(st, sa)
         return d, s, lin_add(d, lin_scale(s, self.s))
 
     def on_event(self, rs, ev, st, f, eng):
@@ -69,7 +69,7 @@ class SizeRule(sym.Rule):
             if pa is None or sa is None or sa != ev.addr:
                 return rs
             old = ev.old
-            data = st.mem.get(pa, atom(('init', pa)))
+            data = eng.load(st, pa)
             return self.size_change(rs, obj, data, old, ev.val, ev, st, f, eng)
         if ev.kind in ('call', 'throw') and ev.callee and ev.args is not None:
             name = ev.callee
